@@ -109,10 +109,43 @@ func isGooseErrorPanic(pn *ssa.Panic) bool {
 	if mi, ok := v.(*ssa.MakeInterface); ok {
 		v = mi.X
 	}
-	if n, ok := v.Type().(*types.Named); ok && n.Obj().Name() == "gooseError" {
+	if n, ok := v.Type().(*types.Named); ok && structuredErrTypes()[n.Obj()] {
 		return true
 	}
 	return false
+}
+
+var structuredErrMemo map[*types.TypeName]bool
+var structuredErrProg *Prog
+
+// structuredErrTypes: the types of the translator that carry a structured error through a panic — those a deferred
+// function of the translator tests the recovered value for (`recover().(T)` with the comma-ok form). Found by role,
+// so renaming the type does not matter.
+func structuredErrTypes() map[*types.TypeName]bool {
+	p := curProg
+	if structuredErrMemo != nil && structuredErrProg == p {
+		return structuredErrMemo
+	}
+	out := map[*types.TypeName]bool{}
+	if p != nil {
+		for _, f := range p.FuncsIn(Mod) {
+			for _, a := range deferredRecoverers(p, f) {
+				p.instrs(a, func(b *ssa.BasicBlock, i int, in ssa.Instruction) {
+					if ta, ok := in.(*ssa.TypeAssert); ok && ta.CommaOk {
+						if n, ok := ta.AssertedType.(*types.Named); ok && n.Obj().Pkg() != nil && n.Obj().Pkg().Path() == Mod {
+							if c, ok := ta.X.(*ssa.Call); ok {
+								if bi, ok := c.Call.Value.(*ssa.Builtin); ok && bi.Name() == "recover" {
+									out[n.Obj()] = true
+								}
+							}
+						}
+					}
+				})
+			}
+		}
+	}
+	structuredErrMemo, structuredErrProg = out, p
+	return out
 }
 
 // recovers reports whether f installs a deferred function that calls recover().
@@ -449,7 +482,7 @@ func c07Recover(p *Prog, r *Report, cg *callGraph, prefixed *ssa.Function) {
 		for _, a := range deferredRecoverers(p, f) {
 			p.instrs(a, func(b *ssa.BasicBlock, i int, in ssa.Instruction) {
 				if ta, ok := in.(*ssa.TypeAssert); ok && ta.CommaOk {
-					if n, ok := ta.AssertedType.(*types.Named); ok && n.Obj().Name() == "gooseError" {
+					if n, ok := ta.AssertedType.(*types.Named); ok && structuredErrTypes()[n.Obj()] {
 						okConv = true
 					}
 				}
@@ -685,6 +718,8 @@ func c07Audit(p *Prog, r *Report, prefixed *ssa.Function) {
 						r.OK("R07b", "slice "+key, instrPos(in), "x[:i] under the fact i <= len(x)")
 					case x.High == nil && strings.HasPrefix(lo, "(strings.LastIndex("+sk(x.X)+",") && strings.HasSuffix(lo, " + 1)"):
 						r.OK("R07b", "slice "+key, instrPos(in), "strings.LastIndex(s, …)+1 lies in 0..len(s)")
+					case x.High == nil && dominatingIndexCovers(f, x):
+						r.OK("R07b", "slice "+key, instrPos(in), "x[k:] after x[k-1] (or a later element) was indexed on every path here: the length is at least k")
 					default:
 						if why, ok := auditFind(c07Slices, key); ok {
 							r.OK("R07b", "slice "+key, instrPos(in), "audited: "+why)
@@ -1720,4 +1755,28 @@ func loopIndexLike(p *Prog, v ssa.Value, depth int) bool {
 		})
 	}
 	return n > 0 && all
+}
+
+// dominatingIndexCovers: the slice expression x[k:] (constant k) is preceded, on every path, by an index
+// expression x[i] of the same slice value with constant i >= k-1 — which would have panicked (and is audited
+// as an index site of its own) unless len(x) >= k.
+func dominatingIndexCovers(f *ssa.Function, sl *ssa.Slice) bool {
+	k, ok := constInt(sl.Low)
+	if !ok || k < 1 {
+		return false
+	}
+	base := sk(sl.X)
+	found := false
+	for _, b := range f.Blocks {
+		for _, in := range b.Instrs {
+			ia, ok := in.(*ssa.IndexAddr)
+			if !ok || sk(ia.X) != base {
+				continue
+			}
+			if i, okc := constInt(ia.Index); okc && i >= k-1 && dominatesInstr(ia, sl) {
+				found = true
+			}
+		}
+	}
+	return found
 }
